@@ -178,7 +178,9 @@ func GenTree(t *rapid.T, g *Node, w0 *World, o TreeOpts) *Tree {
 			blk.Header.PrevBlockHash = pblk.BlockHash()
 			rehash(blk)
 		}
-		if o.InvalidPct > 0 && rapid.IntRange(0, 99).Draw(t, "invalid") < o.InvalidPct {
+		// rapid favours the ends of an integer range: the "invalid" window sits in the middle so that the
+		// percentage means what it says
+		if v := rapid.IntRange(0, 99).Draw(t, "invalid"); o.InvalidPct > 0 && v >= 40 && v < 40+o.InvalidPct {
 			kinds := []string{"bad-stateroot", "bad-receiptsroot", "bad-txroot", "extra-tx-nonce"}
 			if o.Forged && len(blk.GetBody().GetTxs()) > 0 {
 				kinds = append(kinds, "forged-sig", "forged-sig", "forged-chainid", "forged-chainid", "forged-sig-transplant")
